@@ -43,6 +43,10 @@ type C06Case struct {
 	Choices []int   `json:"choices"`
 	Free    bool    `json:"free,omitempty"`   // free-running (no controller); used with -race
 	Reopen  bool    `json:"reopen,omitempty"` // close and reopen after the prefix: sealed segments are then read through their on-disk index
+	// FailOrd>0: the FailOrd-th WriteAt/SyncFile (FailKind) that the writer issues inside an append of the
+	// concurrent phase returns an error once; that StoreLogs fails and its entries must never be seen
+	FailOrd  int    `json:"failOrd,omitempty"`
+	FailKind string `json:"failKind,omitempty"`
 }
 
 func genWriter(t *rapid.T, n int) []WOp {
@@ -100,6 +104,10 @@ func genC06(free bool) func(t *rapid.T) C06Case {
 		c.Readers = genReaders(t, rapid.SampledFrom([]int{1, 2, 2, 4}).Draw(t, "nr"), rapid.IntRange(1, 6).Draw(t, "nrops"))
 		for i := 0; i < rapid.IntRange(10, 120).Draw(t, "nchoices"); i++ {
 			c.Choices = append(c.Choices, rapid.IntRange(0, 9).Draw(t, "ch"))
+		}
+		if rapid.IntRange(0, 2).Draw(t, "withFault") == 0 {
+			c.FailOrd = rapid.IntRange(1, 5).Draw(t, "failOrd")
+			c.FailKind = rapid.SampledFrom([]string{"SyncFile", "SyncFile", "WriteAt"}).Draw(t, "failKind")
 		}
 		return c
 	}
@@ -176,15 +184,26 @@ func runC06(c C06Case) (res common.Result) {
 		}
 		wal.SetVerifHook(ctl.Point)
 	}
+	var failSeen atomic.Int64
+	var faultHit atomic.Bool
+	errInjected := errors.New("verif: injected I/O error")
 	fs.SetHook(func(ev simfs.Event) (int, error) {
+		fail := false
 		if gid() == writerGid.Load() {
 			k := curKind.Load().(string)
-			if (k == "append" && ev.Kind == simfs.KSyncFile) || (k != "append" && ev.Kind == simfs.KCommitState && visibleFrom.Load() == 0) {
+			if c.FailOrd > 0 && k == "append" && string(ev.Kind) == c.FailKind && failSeen.Add(1) == int64(c.FailOrd) {
+				fail = true
+			}
+			if !fail && ((k == "append" && ev.Kind == simfs.KSyncFile) || (k != "append" && ev.Kind == simfs.KCommitState && visibleFrom.Load() == 0)) {
 				visibleFrom.Store(tick.Add(1))
 			}
 		}
 		if ctl != nil {
 			ctl.Point("io:" + string(ev.Kind))
+		}
+		if fail {
+			faultHit.Store(true)
+			return -1, errInjected
 		}
 		return -1, nil
 	})
@@ -194,6 +213,7 @@ func runC06(c C06Case) (res common.Result) {
 	}()
 
 	var writerFail *common.Failure
+	var failedAppends atomic.Int64
 	writer := func() {
 		writerGid.Store(gid())
 		gen := uint8(1)
@@ -238,6 +258,12 @@ func runC06(c C06Case) (res common.Result) {
 				gen++
 			}
 			end := tick.Add(1)
+			if err != nil && errors.Is(err, errInjected) && op.K == "append" {
+				// the append failed on the injected error: the log is what it was, and nothing of the
+				// failed batch may ever be visible (no version contains it)
+				failedAppends.Add(1)
+				continue
+			}
 			if err != nil {
 				writerFail = common.Failf("writer-err", "writer step %d %v = %v", i, op, err)
 				return
@@ -430,6 +456,9 @@ func runC06(c C06Case) (res common.Result) {
 	}
 	if c.Reopen {
 		res.Classes = append(res.Classes, "sealed-segments-read-from-disk-index")
+	}
+	if failedAppends.Load() > 0 {
+		res.Classes = append(res.Classes, "append-failed-under-concurrent-readers")
 	}
 	for k := range kinds {
 		res.Classes = append(res.Classes, "overlap:"+k)
